@@ -33,7 +33,7 @@ Theorem C15_dynamic_wrapper : forall v j tj, is_marked v = false -> is_known v =
 Proof. exact dynamic_wrapper. Qed.
 Theorem C15_dynamic_unwrap : forall norm j tj t, type_of_json norm tj = Ok t ->
   json_unmarshal norm (JObj [(s_value, j); (s_type, tj)]) TDyn =
-  match json_unmarshal_at norm (S (jv_size j + jv_size tj)) j t with Err _ => Err OtherError | r => r end.
+  match json_unmarshal_at norm (S (jv_size j + jv_size tj)) j (strip_opt t) with Err _ => Err OtherError | r => r end.
 Proof. exact dynamic_unwrap. Qed.
 
 (* refuted as coded (known finding KF-C15-1): 1e23 as a float64 is written as "100000000000000000000000",
